@@ -618,13 +618,16 @@ PROPS['C12']['rule'] = PROPS['C12']['rule'] + ' || codec suite (decoded values r
 # proved, for every receiver and input, to compute exactly the decoder models the property theorems are about (Tie/Codec.lean)
 _SK_THEOREMS = ['FV.Tie.Message_UnmarshalMsg_is_model', 'FV.Tie.Message_DecodeMsg_is_model', 'FV.Tie.MessageExt_UnmarshalMsg_is_model',
                 'FV.Tie.MessageExt_DecodeMsg_is_model', 'FV.Tie.Forward_UnmarshalMsg_is_model', 'FV.Tie.Forward_DecodeMsg_is_model',
-                'FV.Tie.Packed_UnmarshalMsg_is_model', 'FV.Tie.Packed_DecodeMsg_is_model']
-_SK_TEXT = (" Regenerated tie for the hand-written decoders: translator/codec.go re-reads the bodies of (*Message|*MessageExt|*ForwardMessage|"
-            "*PackedForwardMessage).UnmarshalMsg / DecodeMsg from /repo's working tree on every run and emits them statement by statement "
+                'FV.Tie.Packed_UnmarshalMsg_is_model', 'FV.Tie.Packed_DecodeMsg_is_model',
+                'FV.Tie.Entry_UnmarshalMsg_is_model', 'FV.Tie.Entry_DecodeMsg_is_model', 'FV.Tie.EntryExt_UnmarshalMsg_is_model',
+                'FV.Tie.EntryExt_DecodeMsg_is_model', 'FV.Tie.Ping_UnmarshalMsg_is_model', 'FV.Tie.Ping_DecodeMsg_is_model',
+                'FV.Tie.Pong_UnmarshalMsg_is_model', 'FV.Tie.Pong_DecodeMsg_is_model']
+_SK_TEXT = (" Regenerated tie for the decoders: translator/codec.go re-reads the bodies of (*Message|*MessageExt|*ForwardMessage|"
+            "*PackedForwardMessage|*Entry|*EntryExt|*Ping|*Pong).UnmarshalMsg / DecodeMsg (hand-written and msgp-generated) from /repo's working tree on every run and emits them statement by statement "
             "(Gen/Codec.lean; a statement it does not recognise becomes `.unknown`, which evaluates to a panic); T_UnmarshalMsg_is_model / "
             "T_DecodeMsg_is_model (Tie/Codec.lean) prove that running the regenerated body (Sk.run, Sk/Interp.lean) equals T.unmarshal on every "
             "receiver and every input, so the theorems about T.unmarshal are theorems about what the source says now.")
-for _p in ('C01', 'C10', 'C13', 'C18'):
+for _p in ('C01', 'C05', 'C10', 'C13', 'C18'):
     PROPS[_p]['translator'] = True
     PROPS[_p]['lean_modules'] = PROPS[_p]['lean_modules'] + ['FluentVerif.Tie.Codec']
     PROPS[_p]['theorems'] = PROPS[_p]['theorems'] + _SK_THEOREMS
